@@ -18,6 +18,11 @@ def run(tier):
         c3 = consts(Replicas={"r1", "r2", "r3"}, Props={"p"}, MaxPending=2, MaxEdits=3,
                     MaxChain=4, Urg={"none", "high"}, AvoidSet={"r2"})
         mc_run(v, wd, "snap-seq-3r", c3, timeout=1700)
+    # the server discards the versions covered by its snapshot: fresh replicas must still end in
+    # the replay of the whole chain; only replicas older than the discarded part may fail
+    ct = consts(Replicas={"r1", "r2", "r3"}, Props={"p"}, MaxPending=2, MaxEdits=3, MaxChain=4,
+                Urg={"none", "high"}, WithTrim=True)
+    mc_run(v, wd, "snap-trim-3r", ct, timeout=1500 if thorough else 600)
     # anti-vacuity: snapshot after a non-final batch (D4) must violate SnapshotFaithful
     mc_run(v, wd, "snap-pinned-d4", dict(cb, Dev={"D4"}), init="PInit", timeout=600,
            expect="SnapshotFaithful")
@@ -29,6 +34,10 @@ def run(tier):
     v.distinct += distinct_count(sch)
     conform(v, wd, "snap-sim", g, sch)
     conform(v, wd, "snap-sim-unicode", g, sch[:400 if thorough else 60], valclass="unicode")
+    gt = dict(g, WithTrim=True, Urg={"none", "high"})
+    scht, _ = gen_schedules(wd, "gen-snap-trim", gt, simulate=1500 if thorough else 150, depth=51)
+    v.distinct += distinct_count(scht)
+    conform(v, wd, "snap-trim-sim", gt, scht)
     if thorough:
         conform(v, wd, "snap-sim-sqlite", g, sch[:300], storage="sqlite")
 
